@@ -35,6 +35,8 @@ def negative(ctx, cfg, want, module="MCTxGuard"):
 
 
 def run(ctx):
+    import os
+    os.environ.setdefault("VERIF_TLC_HEAP", "3g")     # the largest graph here has < 10^6 states; a small heap survives a crowded machine
     ctx.build()
     # ---------------- layer 1: the guard alone
     dot = ctx.path("txguard.dot")
